@@ -6,7 +6,7 @@ PROPS = "RotoV.Props.C07"
 MODULES = [
     "RotoV.Lemmas.TcRules", "RotoV.Lemmas.UnifyTc", "RotoV.Lemmas.Typing", "RotoV.Lemmas.TypingAux", "RotoV.Lemmas.TypingMono", "RotoV.Lemmas.TypingProg",
     "RotoV.Model.Typing", "RotoV.Model.TcRules", "RotoV.Model.UnifyTc",
-    "RotoV.Model.TcInfer", "RotoV.Model.TcInferPinned", "RotoV.Lemmas.TcInferUnify", "RotoV.Lemmas.TcInferSound", "RotoV.Lemmas.TcInferSoundMain", "RotoV.Lemmas.TcInferObls", "RotoV.Model.TcInferSem",
+    "RotoV.Model.TcInfer", "RotoV.Model.TcInferPinned", "RotoV.Lemmas.TcInferUnify", "RotoV.Lemmas.TcInferSound", "RotoV.Lemmas.TcInferSoundMain", "RotoV.Lemmas.TcInferObls", "RotoV.Lemmas.TcInferProg", "RotoV.Model.TcInferSem",
 ]
 
 
